@@ -503,6 +503,11 @@ func (app *App) stateManager() appState {
 				return stateManager
 			}
 			err = app.performSwitchover(clusterState, activeNodes, switchover, master)
+			if errors.Is(err, ErrManagerLockLost) {
+				// the request now belongs to the new manager: do not touch it
+				app.logger.Error().Err(err).Msg("")
+				return stateManager
+			}
 			if errors.Is(app.GetCurrentSwitchover(new(Switchover)), dcs.ErrNotFound) {
 				app.logger.Error().Msgf("switchover was aborted")
 			} else {
@@ -1359,7 +1364,7 @@ func (app *App) performSwitchover(clusterState map[string]*nodestate.NodeState, 
 
 	// setting server read-only may take a while so we need to ensure we are still a manager
 	if !app.AcquireLock(pathManagerLock) || app.emulateError("set_read_only_lost_lock") {
-		return errors.New("manger lock lost during switchover, new manager should finish the process, leaving")
+		return ErrManagerLockLost
 	}
 
 	// collect active host positions
@@ -1433,7 +1438,7 @@ func (app *App) performSwitchover(clusterState map[string]*nodestate.NodeState, 
 	}
 	// catching up may take a while so we need to ensure we are still a manager
 	if !app.AcquireLock(pathManagerLock) || app.emulateError("catchup_lost_lock") {
-		return errors.New("manger lock lost during switchover, new manager should finish the process, leaving")
+		return ErrManagerLockLost
 	}
 	app.logger.Info().Msgf("switchover: new master %s caught up", newMaster)
 
